@@ -150,6 +150,9 @@ def main(tier):
         "enumerated on both sides; non-trivial = the law has at least two outcomes; distinct by (program text, table)"
     )
     ck.assumptions += [
+        "programs in which a behaviour with invariants runs a sub-behaviour under do-for/do-until/try are run under the "
+        "named as-implemented invariant timing (Dynamics.tla invimpl = 1): that deviation is decided by C13 (known "
+        "finding invariant-checked-inside-sub-behaviour) and must not mask the probabilities checked here",
         "scripted random module: random.choices / random.randint are replaced and every alternative is executed once; "
         "branch weights are computed from the logged arguments",
         "choose/shuffle over behaviours (in behaviours) and over scenarios (in compose blocks); run-time draws in "
